@@ -209,6 +209,26 @@ func Rich(t *rapid.T, o RichOpts) play.History {
 			m = script.CMsg{K: "S"}
 		case k == 20:
 			m = script.CMsg{K: "d", Data: rapid.SliceOfN(rapid.Byte(), 0, 40).Draw(t, "copydata")}
+			if o.Helpers && rapid.Bool().Draw(t, "binary-row") {
+				// a structurally valid binary COPY row whose field count rarely matches the table:
+				// the row reader must reject it, never index out of range
+				var b []byte
+				if rapid.Bool().Draw(t, "with-header") {
+					b = append(b, "PGCOPY\n\377\r\n\x00\x00\x00\x00\x00\x00\x00\x00\x00"...)
+				}
+				nf := rapid.SampledFrom([]int{0, 1, 2, 3, 4, 6, 13, 14}).Draw(t, "nfields")
+				b = append(b, byte(nf>>8), byte(nf))
+				for f := 0; f < nf; f++ {
+					if rapid.Bool().Draw(t, "null-field") {
+						b = append(b, 0xff, 0xff, 0xff, 0xff)
+					} else {
+						v := rapid.SampledFrom([]string{"", "1", "\x00\x00\x00\x07", "t", "abc"}).Draw(t, "field")
+						b = append(b, 0, 0, 0, byte(len(v)))
+						b = append(b, v...)
+					}
+				}
+				m.Data = b
+			}
 		case k == 21:
 			m = script.CMsg{K: rapid.SampledFrom([]string{"c", "f"}).Draw(t, "copy-end"), Data: []byte("why")}
 		case k == 22 && o.Oversized:
